@@ -26,7 +26,10 @@ PROP = {
              "user id) and 'parallel' worlds of one user with 1..32 concurrent streams. Relay script = mode in "
              "{quiesce, c_close_idle, t_close_idle, c_close_mid, t_close_mid, both_close, t_error, dial_fail} x sizes "
              "0..2 MiB per direction x write chunking 1..64 KiB x pacing sleeps x client read buffer 1..64 KiB x fast "
-             "open on/off (late first Read) x veto at LogTraffic call n in {1,2,3..20} one-shot or sticky. Content is "
+             "open on/off (late first Read) x veto at LogTraffic call n in {1,2,3..20} one-shot or sticky, answered at once "
+             "or after 50..500 ms (slow logger) -- with modes c_close_on_veto / t_close_on_veto in which the side that "
+             "is NOT being vetoed closes while the logger is still deciding, so the vetoed direction finishes second. "
+             "Content is "
              "keyed by (case, relay, direction, offset). Oracles: prefix at every arrival in both directions; "
              "completeness only for shape (i) nobody closes until all bytes arrived and shape (ii) sender writes N, "
              "closes, opposite direction idle; failed dial => DialError.Message == outbound error text from Client.TCP "
@@ -40,6 +43,8 @@ PROP = {
         "no request hook is configured (the accounting clause only covers un-hooked connections)",
         "the close after a veto is observed on a lossless link, >= 1 s + 8 one-way latencies of virtual time later",
         "300 s of virtual time without delivery while nobody closed counts as never",
+        "relay goroutines the server (or a client Write) leaves blocked for ever after Close+connection loss are "
+        "outside the statement: counted as obs_* observations and released through a write deadline",
         "bytes forwarded target->client are bracketed by (bytes read by the client, bytes the server took from the "
         "target); bytes forwarded client->target are observed exactly",
     ],
